@@ -177,7 +177,7 @@ fn compositions(total: usize, parts: usize) -> Vec<Vec<usize>> {
 
 pub const DEFAULT_FIELD_NAMES: [&str; 4] = ["a", "b", "c", "d"];
 pub const DEFAULT_VARIANT_NAMES: [&str; 4] = ["A", "B", "C", "D"];
-pub const NAME_SET: [&str; 4] = ["", "a", "é", "ab"];
+pub const NAME_SET: [&str; 5] = ["", "a", "é", "ab", "r#a"];
 
 pub struct SchemaEnum {
     exact: Vec<Vec<St>>,
@@ -668,4 +668,66 @@ pub fn fnv_self_test() -> Result<(), String> {
         return Err(format!("tags not distinct / count {n}"));
     }
     Ok(())
+}
+
+
+/// Pair family: every ordered pair (a, b) of trees with <= 2 nodes under every binary-capable
+/// constructor. Complements T(k): two compound children of the same kind but different payload
+/// need 5+ nodes in T(k).
+pub fn pair_family() -> Vec<St> {
+    let en = SchemaEnum::new(2, 2);
+    let small = en.upto(2);
+    let mut out = vec![];
+    for a in &small {
+        for b in &small {
+            out.push(St::Tuple(vec![a.clone(), b.clone()]));
+            out.push(St::Map(Box::new(a.clone()), Box::new(b.clone())));
+            out.push(St::Struct("P".into(), Sd::Tuple(vec![a.clone(), b.clone()])));
+            out.push(St::Struct("P".into(), Sd::Struct(vec![("x".into(), a.clone()), ("y".into(), b.clone())])));
+            out.push(St::Enum("P".into(), vec![("A".into(), Sd::Newtype(Box::new(a.clone()))), ("B".into(), Sd::Newtype(Box::new(b.clone())))]));
+        }
+    }
+    out
+}
+
+/// Wide family: fan-out well beyond the 0..3 of T(k) (17, 20 and 130 children), heterogeneous so that
+/// every position is distinguishable.
+pub fn wide_family() -> Vec<St> {
+    let leaves: Vec<St> = PRIM_KINDS.to_vec();
+    let elem = |i: usize| -> St {
+        match i % 5 {
+            0 => leaves[i % leaves.len()].clone(),
+            1 => St::Option(Box::new(leaves[i % leaves.len()].clone())),
+            2 => St::Seq(Box::new(leaves[(i * 7) % leaves.len()].clone())),
+            3 => St::Struct(format!("N{i}"), Sd::Newtype(Box::new(leaves[(i * 3) % leaves.len()].clone()))),
+            _ => St::Tuple(vec![leaves[i % leaves.len()].clone(), leaves[(i + 1) % leaves.len()].clone()]),
+        }
+    };
+    let mut out = vec![];
+    for n in [16usize, 17, 20, 130] {
+        let items: Vec<St> = (0..n).map(elem).collect();
+        out.push(St::Tuple(items.clone()));
+        out.push(St::Struct("Wide".into(), Sd::Tuple(items.clone())));
+        out.push(St::Struct("Wide".into(), Sd::Struct(items.iter().enumerate().map(|(i, t)| (format!("f{i}"), t.clone())).collect())));
+        out.push(St::Enum(
+            "Wide".into(),
+            items
+                .iter()
+                .enumerate()
+                .map(|(i, t)| {
+                    (
+                        format!("V{i}"),
+                        match i % 4 {
+                            0 => Sd::Unit,
+                            1 => Sd::Newtype(Box::new(t.clone())),
+                            2 => Sd::Tuple(vec![t.clone(), St::U8]),
+                            _ => Sd::Struct(vec![(format!("g{i}"), t.clone())]),
+                        },
+                    )
+                })
+                .collect(),
+        ));
+        out.push(St::Seq(Box::new(St::Tuple(items))));
+    }
+    out
 }
